@@ -351,7 +351,7 @@ Proof. intros; unfold delete_call; destruct (find_call n (calls s)); reflexivity
 
 Lemma refund_call_spec : forall cs s c s' evs, refund_call cs s c = ROk (s', evs) ->
   shrink s s' /\ calls s' = calls s /\ evs = [EvCallRefund (c_nonce c) (c_refund c) (c_tokens c) cs] /\
-  refund_coins (toks s) (bal s) (c_refund c) (c_tokens c) = ROk (bal s').
+  refund_coins (toks s) (existsb (Z.eqb (c_nonce c)) (from_msg s)) (bal s) (c_refund c) (c_tokens c) = ROk (bal s').
 Proof.
   unfold refund_call; intros cs s c s' evs H. mon. simpl. repeat split; auto.
 Qed.
@@ -613,7 +613,9 @@ Record step_rel (s s' : state) (o : op) : Prop := {
   sr_calls : forall c, In c (calls s') ->
      In c (calls s) \/
      (c_nonce c = next_call s /\ next_call s' = next_call s + 1 /\ c_evnonce c = 0 /\ c_block c = fxh s /\
-      o = BridgeCall (c_sender c) (c_refund c) (c_tokens c) (c_to c) (c_data c) (c_memo c));
+      (o = BridgeCall (c_sender c) (c_refund c) (c_tokens c) (c_to c) (c_data c) (c_memo c) \/
+       exists value tokens, o = BridgeCallP (c_sender c) (c_refund c) value tokens (c_to c) (c_data c) (c_memo c) /\
+                            c_tokens c = (if 0 <? value then [(0, value)] else []) ++ tokens));
   sr_cn : NoDup (cnonces (calls s'));
   sr_nc : next_call s <= next_call s'
 }.
@@ -704,6 +706,21 @@ Proof.
   exists x0. repeat split; auto.
 Qed.
 
+Lemma bridge_call_p_spec : forall s sender refund value tokens to data memo s' evs,
+  do_bridge_call_p s sender refund value tokens to data memo = ROk (s', evs) ->
+  exists t l0, cal_timeout s (p_call_timeout (prm s)) = ROk t /\ call_build_reject t = false /\
+    calls s' = calls s ++ [{| c_nonce := next_call s; c_timeout := t; c_block := fxh s; c_sender := sender; c_refund := refund;
+                              c_tokens := (if 0 <? value then [(0, value)] else []) ++ tokens; c_to := to; c_data := data; c_memo := memo; c_evnonce := 0 |}] /\
+    pool s' = pool s /\ batches s' = batches s /\ from_msg s' = from_msg s /\ pending s' = pending s /\
+    next_tx s' = next_tx s /\ next_batch s' = next_batch s /\ next_call s' = next_call s + 1 /\
+    obs_ext s' = obs_ext s /\ evs = [EvCallCreated (next_call s) t] /\
+    erc20_to_base (toks s) (bal s) sender tokens = ROk l0 /\
+    lock_coins (toks s) l0 sender ((if 0 <? value then [(0, value)] else []) ++ tokens) = ROk (bal s').
+Proof.
+  unfold do_bridge_call_p; intros. des H. mon. des H. inv H. simpl.
+  exists x1, x. repeat split; auto.
+Qed.
+
 Lemma exec_result_spec : forall s e s' evs, do_exec_result s e = ROk (s', evs) ->
   exists n ok c, In (e, (n, ok)) (pending s) /\ In c (calls s) /\ c_nonce c = n /\
     pool s' = pool s /\ batches s' = batches s /\
@@ -712,7 +729,7 @@ Lemma exec_result_spec : forall s e s' evs, do_exec_result s e = ROk (s', evs) -
     next_tx s' = next_tx s /\ next_batch s' = next_batch s /\ next_call s' = next_call s /\
     obs_ext s' = obs_ext s /\
     (if ok then bal s' = bal s /\ evs = [EvCallDone n true]
-     else refund_coins (toks s) (bal s) (c_refund c) (c_tokens c) = ROk (bal s') /\
+     else refund_coins (toks s) (existsb (Z.eqb (c_nonce c)) (from_msg s)) (bal s) (c_refund c) (c_tokens c) = ROk (bal s') /\
           evs = [EvCallRefund n (c_refund c) (c_tokens c) ByFailure; EvCallDone n false]).
 Proof.
   unfold do_exec_result; intros s e s' evs H.
@@ -816,6 +833,16 @@ Proof.
     + apply TC_none; auto. unfold live. rewrite Ep, Eb; auto.
     + intros c Hc. rewrite Ec in Hc. apply in_app_or in Hc. destruct Hc as [Hc|[<-|[]]]; auto.
       right. simpl. repeat split; auto.
+    + rewrite Ec. unfold cnonces. rewrite map_app. simpl.
+      eapply Permutation_NoDup; [apply Permutation_cons_append|].
+      constructor; [|apply I]. intro Hx. apply in_map_iff in Hx. destruct Hx as (y & Ey & Hy).
+      apply (inv_cnlt _ I) in Hy. lia.
+  - (* BridgeCallP: a bridge call queued by the precompile; for the relation it is a BridgeCall with the assembled coins *)
+    destruct (bridge_call_p_spec _ _ _ _ _ _ _ _ _ _ H) as (t & l0 & _ & _ & Ec & Ep & Eb & _ & _ & Et & Enb & Enc & _).
+    constructor; try rewrite Eb; try apply I; auto; try lia.
+    + apply TC_none; auto. unfold live. rewrite Ep, Eb; auto.
+    + intros c Hc. rewrite Ec in Hc. apply in_app_or in Hc. destruct Hc as [Hc|[<-|[]]]; auto.
+      right. simpl. repeat split; auto. right. eauto 10.
     + rewrite Ec. unfold cnonces. rewrite map_app. simpl.
       eapply Permutation_NoDup; [apply Permutation_cons_append|].
       constructor; [|apply I]. intro Hx. apply in_map_iff in Hx. destruct Hx as (y & Ey & Hy).
